@@ -202,7 +202,21 @@ type model struct {
 	now   int64
 	recs  map[string]*entry
 	dirty bool // delayed writes since the last flush
+	// held: what the caller knows about the record object it put last under a key (content, metadata as stamped by
+	// that put). Forgotten when an operation that may change the object behind the caller's back on some backends
+	// only (Delete, expiry setters, Renew, Purge work on the stored/cached object, which is the caller's object on
+	// hashmap and behind a cache) touches the key, so that the model stays the same for all backends.
+	held map[string]*entry
 }
+
+func (m *model) hold(k string, e *entry) {
+	if m.held == nil {
+		m.held = map[string]*entry{}
+	}
+	m.held[k] = &entry{e.c, e.m}
+}
+
+func (m *model) forget(k string) { delete(m.held, k) }
 
 func (m *model) visible(k string) *entry {
 	e := m.recs[k]
@@ -226,6 +240,14 @@ func (m *model) dump() string {
 	for _, k := range keys {
 		e := m.recs[k]
 		fmt.Fprintf(&sb, " %s=%+v%v", k, e.c, e.m)
+	}
+	hk := make([]string, 0, len(m.held))
+	for k := range m.held {
+		hk = append(hk, k)
+	}
+	sort.Strings(hk)
+	for _, k := range hk {
+		fmt.Fprintf(&sb, " held(%s)=%+v%v", k, m.held[k].c, m.held[k].m)
 	}
 	return sb.String()
 }
@@ -281,12 +303,13 @@ type seedDef struct {
 	recs map[string]entry // initial storage content (written to the storage before the interface exists)
 	// pre: operations run through the interface under test before the explored history starts (non-initial
 	// interface states: pending delayed writes, evictions, a full cache). They are executed and checked like any step.
-	pre    func(keys []string) []string
-	caches string // cache modes the seed is used with ("" = all)
+	pre      func(keys []string) []string
+	caches   string // cache modes the seed is used with ("" = all)
+	backends string // backends the seed is used with ("" = all)
 }
 
 func (sd seedDef) usedWith(cfg config) bool {
-	return sd.caches == "" || strings.Contains(sd.caches, cfg.Cache)
+	return (sd.caches == "" || strings.Contains(sd.caches, cfg.Cache)) && (sd.backends == "" || strings.Contains(sd.backends, cfg.Backend))
 }
 
 // prefix resolves the seed's interface prefix to operation indexes of ops.
@@ -326,6 +349,10 @@ var seeds = []seedDef{
 	{name: "iface:cache-full-of-read-entries", caches: "read,delayed", recs: map[string]entry{
 		"a/b": {contents[0], meta{C: t0 - 100, M: t0 - 100}}, "b": {contents[1], meta{C: t0 - 90, M: t0 - 90}}},
 		pre: func(k []string) []string { return []string{"Get(a/b)", "Get(b)"} }},
+	// the caller holds a record object with a relative TTL that is stored (hashmap: that very object is the stored one)
+	{name: "iface:put-with-relative-ttl", caches: "none,read", backends: "hashmap", pre: func(k []string) []string {
+		return []string{"Put(" + k[0] + ",c2,wrapped,ttl=10)"}
+	}},
 }
 
 type qdef struct {
@@ -637,7 +664,22 @@ type exec struct {
 	iface *database.Interface
 	keys  []string
 	now   int64
+	held  map[string]record.Record // the object of the last Put/PutNew per key, kept by the caller (for PutAgain)
 }
+
+// tracksHeld: in the quick tier only the keys that have a PutAgain operation need their last object remembered.
+func tracksHeld(quick bool, keys []string, k string) bool {
+	return !quick || k == keys[0]
+}
+
+func (x *exec) hold(k string, r record.Record) {
+	if x.held == nil {
+		x.held = map[string]record.Record{}
+	}
+	x.held[k] = r
+}
+
+func (x *exec) forget(k string) { delete(x.held, k) }
 
 func (x *exec) full(k string) string { return x.env.name + ":" + k }
 
@@ -698,6 +740,16 @@ type opDef struct {
 	mutates   bool
 	run       func(x *exec) result
 	ref       func(m *model) result
+	forget    string // key whose held object is forgotten after the step ("*": all): see model.held
+}
+
+func keyOfOp(name string) string {
+	i := strings.Index(name, "(")
+	rest := name[i+1:]
+	if j := strings.IndexAny(rest, ",)"); j >= 0 {
+		return rest[:j]
+	}
+	return rest
 }
 
 type putVariant struct {
@@ -716,8 +768,19 @@ type batchItem struct {
 func buildOps(cfg config, quick bool) []opDef {
 	keys := keysFor(cfg.Backend)
 	var ops []opDef
-	add := func(o opDef) { ops = append(ops, o) }
+	add := func(o opDef) {
+		switch o.kind {
+		case "Delete", "SetAbsoluteExpiry", "SetRelativateExpiry", "Renew":
+			o.forget = keyOfOp(o.name)
+		case "Purge":
+			o.forget = "*"
+		}
+		ops = append(ops, o)
+	}
 
+	// quick tier: the metadata-only operations (Resave, Put of a deleted record, expiry setters) are offered on the first
+	// key and on the key of the storage seeds only; they address a record by its exact key, the other keys add nothing
+	mainKey := func(k string) bool { return !quick || k == keys[0] || k == "a/b" }
 	// --- observers first
 	for _, k := range keys {
 		k := k
@@ -731,31 +794,56 @@ func buildOps(cfg config, quick bool) []opDef {
 		variants = append(variants, putVariant{"c1,wrapped", 0, false}, putVariant{"c2,typed", 1, true})
 	}
 	variants = append(variants, putVariant{"c1,typed,expires=now+10", 0, true})
-	for _, k := range keys {
-		for _, v := range variants {
+	for ki, k := range keys {
+		kvariants := variants
+		if !quick || ki == 0 {
+			// a record with a relative TTL (the caller has called Meta().SetRelativateExpiry before Put)
+			kvariants = append(append([]putVariant{}, variants...), putVariant{"c2,wrapped,ttl=10", 1, false})
+			if !quick {
+				kvariants = append(kvariants, putVariant{"c1,typed,ttl=10", 0, true})
+			}
+		}
+		for _, v := range kvariants {
 			k, v := k, v
 			withExpiry := strings.Contains(v.name, "expires")
+			withTTL := strings.Contains(v.name, "ttl")
 			add(opDef{name: "Put(" + k + "," + v.name + ")", kind: "Put", mutates: true,
 				run: func(x *exec) result {
 					var pre *meta
 					if withExpiry {
 						pre = &meta{E: x.now + 10} // the caller has called Meta().SetAbsoluteExpiry before Put
 					}
-					return errResult(x.iface.Put(mkRecord(x.env.name, k, contents[v.ci], v.typed, pre)))
+					if withTTL {
+						pre = &meta{D: -10}
+					}
+					r := mkRecord(x.env.name, k, contents[v.ci], v.typed, pre)
+					if tracksHeld(quick, keys, k) {
+						x.hold(k, r)
+					}
+					return errResult(x.iface.Put(r))
 				},
 				ref: func(m *model) result {
 					e := &entry{c: contents[v.ci]}
 					if withExpiry {
 						e.m.E = m.now + 10
 					}
+					if withTTL {
+						e.m.D = -10
+					}
 					e.m.update(m.now)
 					m.recs[k] = e
+					if tracksHeld(quick, keys, k) {
+						m.hold(k, e)
+					}
 					m.dirty = true
 					return result{cls: "ok"}
 				}})
 		}
 	}
 	for _, k := range keys {
+		if !mainKey(k) {
+			continue
+		}
 		k := k
 		// a record that is already marked deleted (how callers delete a record they hold: Meta().Delete(), then Put)
 		add(opDef{name: "Put(" + k + ",c1,wrapped,deleted)", kind: "PutDeleted", mutates: true, needClean: true,
@@ -793,16 +881,53 @@ func buildOps(cfg config, quick bool) []opDef {
 			add(opDef{name: fmt.Sprintf("PutNew(%s,c%d,%s,stale:%s)", k, ci+1, kindName(typed), sc.name), kind: "PutNew", mutates: true,
 				run: func(x *exec) result {
 					pre := sc.m(x.now)
-					return errResult(x.iface.PutNew(mkRecord(x.env.name, k, contents[ci], typed, &pre)))
+					r := mkRecord(x.env.name, k, contents[ci], typed, &pre)
+					if tracksHeld(quick, keys, k) {
+						x.hold(k, r)
+					}
+					return errResult(x.iface.PutNew(r))
 				},
 				ref: func(m *model) result {
 					e := &entry{c: contents[ci]}
 					e.m.update(m.now)
 					m.recs[k] = e
+					if tracksHeld(quick, keys, k) {
+						m.hold(k, e)
+					}
 					m.dirty = true
 					return result{cls: "ok"}
 				}})
 		}
+	}
+	// --- PutAgain: put again the record object that the caller put last under this key (object identity across
+	// everything that happened in between, maintenance in particular: hashmap stores the caller's object, the caches
+	// hold it). A put always yields the record as the caller knows it, freshly stamped; a relative TTL restarts.
+	for i, k := range keys {
+		if !tracksHeld(quick, keys, k) {
+			continue
+		}
+		_ = i
+		k := k
+		add(opDef{name: "PutAgain(" + k + ")", kind: "PutAgain", mutates: true,
+			run: func(x *exec) result {
+				r := x.held[k]
+				if r == nil {
+					return result{cls: "noobject"}
+				}
+				return errResult(x.iface.Put(r))
+			},
+			ref: func(m *model) result {
+				h := m.held[k]
+				if h == nil {
+					return result{cls: "noobject"}
+				}
+				e := &entry{h.c, h.m}
+				e.m.update(m.now)
+				m.recs[k] = e
+				m.hold(k, e)
+				m.dirty = true
+				return result{cls: "ok"}
+			}})
 	}
 	// --- Renew: get a record, delete it through the interface, then PutNew the object obtained by Get (object reuse
 	// after Delete: with hashmap or behind a cache that object is the one the Delete marked as deleted)
@@ -835,6 +960,9 @@ func buildOps(cfg config, quick bool) []opDef {
 	}
 	// --- Resave: get a record and put the same object back (the usual update cycle; refreshes a relative expiry)
 	for _, k := range keys {
+		if !mainKey(k) {
+			continue
+		}
 		k := k
 		add(opDef{name: "Resave(" + k + ")", kind: "Resave", mutates: true,
 			run: func(x *exec) result {
@@ -871,6 +999,9 @@ func buildOps(cfg config, quick bool) []opDef {
 	}
 	// --- expiry setting
 	for _, k := range keys {
+		if !mainKey(k) {
+			continue
+		}
 		for _, off := range []int64{-5, 10} {
 			k, off := k, off
 			add(opDef{name: fmt.Sprintf("SetAbsoluteExpiry(%s,now%+d)", k, off), kind: "SetAbsoluteExpiry", mutates: true, needClean: true,
@@ -991,9 +1122,11 @@ func buildOps(cfg config, quick bool) []opDef {
 			},
 			ref: func(m *model) result { return result{cls: "ok"} }})
 	}
-	add(opDef{name: "Maintain", kind: "Maintain", needClean: true,
-		run: func(x *exec) result { return errResult(x.env.ctrl.Maintain(context.Background())) },
-		ref: func(m *model) result { return result{cls: "ok"} }})
+	if !quick || cfg.Backend == "badger" { // only badger implements Maintain
+		add(opDef{name: "Maintain", kind: "Maintain", needClean: true,
+			run: func(x *exec) result { return errResult(x.env.ctrl.Maintain(context.Background())) },
+			ref: func(m *model) result { return result{cls: "ok"} }})
+	}
 	// --- flush of delayed writes: one DelayedCacheWriter run that is ended by its context
 	if cfg.Cache == "delayed" {
 		// the exported flush; the step runner checks that no delayed write is left pending
@@ -1194,6 +1327,14 @@ func runHistoryOnce(cfg config, seed seedDef, ops []opDef, hist []int, wantKey, 
 				fmt.Sprintf("step %d %s returned %v, the reference map says %v (model before probe: %s)", step+1, o.name, got, want, m.dump())}
 			return
 		}
+		switch o.forget {
+		case "":
+		case "*":
+			x.held, m.held = nil, nil
+		default:
+			x.forget(o.forget)
+			m.forget(o.forget)
+		}
 		if o.kind == "FlushCache" {
 			if n := len(x.iface.VerifWriteCache()); n > 0 {
 				out.viol = &violation{"flush-writes-delayed-records", layer + ":FlushCache", "records-still-pending",
@@ -1240,7 +1381,11 @@ func runHistoryOnce(cfg config, seed seedDef, ops []opDef, hist []int, wantKey, 
 			out.viol = &violation{clause: "ENGINE", detail: "raw: " + err.Error()}
 			return
 		}
-		state := fmt.Sprintf("%v|%s|M:%s|R:%s|C:%s", cfg, seed.name, m.dump(), dumpMap(raw), dumpCache(x.iface))
+		heldDump := map[string]string{}
+		for k, r := range x.held {
+			heldDump[k] = decode(r).String()
+		}
+		state := fmt.Sprintf("%v|%s|M:%s|R:%s|C:%s|H:%s", cfg, seed.name, m.dump(), dumpMap(raw), dumpCache(x.iface), dumpMap(heldDump))
 		if verbose {
 			logf("state: %s", state)
 		}
@@ -1475,7 +1620,7 @@ func dirtyAfter(ops []opDef, pre, hist []int) bool {
 	d := false
 	for _, oi := range append(append([]int{}, pre...), hist...) {
 		switch ops[oi].kind {
-		case "Put", "PutNew", "Resave", "Renew":
+		case "Put", "PutNew", "Resave", "Renew", "PutAgain":
 			d = true
 		case "Flush", "FlushCache":
 			d = false
@@ -1719,7 +1864,7 @@ func main() {
 		}
 
 		c.Rule("breadth-first search over histories of database.Interface operations on the real code, per configuration backend {hashmap,bbolt,fstree; thorough: badger} x shadow-delete {off,on} x cache {none, read cache size 2, delayed write cache size 2 (hashmap, bbolt)} and per initial state: 5 storage contents (empty, one live, one shadow-deleted, one expired record, one with a relative expiry) and, behind a cache, 3 non-initial interface states reached by a fixed prefix run through the interface under test (three puts of which the oldest was evicted; a put plus a cached get of another key; a cache full of read entries); " +
-			"alphabet per configuration: Get, Put (typed struct / wrapped JSON twins, 2 contents), PutNew (record object with stale metadata: old+expired / deleted before / relative TTL / expiring later), Resave (Get then Put of the same object), Renew (Get, Delete, then PutNew of the object obtained by Get), Delete, SetAbsoluteExpiry (past, +10 s), SetRelativateExpiry(10), PutMany (2 batches of two records, one deleted), Purge (2 queries), 10 s / 20 s pass on the manual clock, MaintainRecordStates (threshold now / now-15 s), Maintain, FlushCache and Flush = one DelayedCacheWriter run ended by its context (delayed writes only), Put of an already deleted record over 4 keys sharing prefixes and a path separator; " +
+			"alphabet per configuration: Get, Put (typed struct / wrapped JSON twins, 2 contents), PutNew (record object with stale metadata: old+expired / deleted before / relative TTL / expiring later), Resave (Get then Put of the same object), Renew (Get, Delete, then PutNew of the object obtained by Get), PutAgain (Put again the record object the caller put last under the key; object identity across maintenance, time and caches), Delete, SetAbsoluteExpiry (past, +10 s), SetRelativateExpiry(10), PutMany (2 batches of two records, one deleted), Purge (2 queries), 10 s / 20 s pass on the manual clock, MaintainRecordStates (threshold now / now-15 s), Maintain, FlushCache and Flush = one DelayedCacheWriter run ended by its context (delayed writes only), Put of an already deleted record over 4 keys sharing prefixes and a path separator; " +
 			"every history runs on a wiped database through a fresh Interface and on a map[string]entry model; after the last step Exists+Get of all 4 keys (cached keys first, so that the probe's own cache misses cannot evict a stale entry unseen) and 19 queries (5 key prefixes; all 18 operators; and/or/not nested to depth 2) are compared; states de-duplicated on (model, raw storage dump, ARC cache lists and entries, delayed write set); " +
 			"non-trivial = distinct reached states holding at least two records or at least one deleted/expired record. " +
 			"Plus two scenario families: bulk (N records in mixed states, N around bbolt's purge batch size 1000 and up to several B+tree pages, then Purge by prefix / by condition or MaintainRecordStates, compared with the model) storage-error (a query that meets an unreadable raw record must end its stream and report through Iterator.Err()) and condition (input enumeration: every operator x operand values x field values at the numeric boundaries 0, +-1, 2^31, 2^53-1, 2^53, 2^53+1, MaxInt64-1, MaxInt64, MinInt64, MinInt64+1, floats incl. non-integers and 1e300, strings incl. empty/unicode/escapes, bools in all accepted spellings, string lists incl. empty, plus Not of every leaf and And/Or pairs, evaluated on a typed record and on its marshalled-and-reloaded twin against a reference evaluator of the README operator table). Scenario put-during-flush (hashmap, bbolt): a storage type registered by the harness wraps the real storage and calls back when a flush's batch hands over its first record; if the delayed write set's lock is free at that moment the harness puts (same key / another key) right there, otherwise right after the flush (a concurrent put could only wait); after one more flush the storage must hold the newest put. The outcome class evicted-pending-write counts the delayed writes that a step pushed out of the cache")
@@ -1727,7 +1872,7 @@ func main() {
 		c.Assume("metadata semantics are those documented in record/meta.go: a save stamps Modified (and Created if unset) and recomputes Expires from a relative TTL; a TTL set through Interface.SetRelativateExpiry therefore takes effect at the next save (not asserted otherwise); a record is expired when now > Expires")
 		c.Assume("a backend that does not implement Purge / PutMany and answers ErrNotImplemented is taken as 'operation not offered' (no effect in the model); the count returned by Purge may or may not include expired records that were not yet deleted")
 		c.Assume("databases are reused between histories by wiping all records (hashmap: new map; bbolt: bucket dropped and re-created; fstree: directory emptied; badger: all keys deleted); the read cache's clock is replaced by the manual clock so that cache TTLs and record expiry run on the same clock, as they do in production")
-		c.Assume("the interface holds all permissions (Local+Internal), as PutMany and delayed writes require; permission clauses belong to C03. Through a delayed write cache, only Get/Put/PutNew/Resave/Renew/Delete/Flush/time are offered while a delayed write is pending; every other operation and all queries run after a flush")
+		c.Assume("the interface holds all permissions (Local+Internal), as PutMany and delayed writes require; permission clauses belong to C03. Through a delayed write cache, only Get/Put/PutNew/PutAgain/Resave/Renew/Delete/Flush/time are offered while a delayed write is pending; every other operation and all queries run after a flush")
 		c.Assume("portbase's own wall-clock timeouts (query executors: consumer must take a record within 1 s; PutMany: next record within 1 s) can only fire here when the process is starved of CPU, as the harness drains and feeds immediately; such a run is repeated (4 attempts) and otherwise reported as an engine error, never as a finding")
 		c.Extra("depth_note", "history depth = max depth, except one less for badger (thorough) and for fstree behind a read cache in the quick tier")
 
@@ -1741,6 +1886,9 @@ func main() {
 			maxDepth = *flagDepth
 		}
 		c.SetBudget(vlib.Pick(c, 170*time.Second, 25*time.Minute))
+		if d, err := time.ParseDuration(os.Getenv("C02_BUDGET")); err == nil && d > 0 { // development aid
+			c.SetBudget(d)
+		}
 		workDir, err := os.MkdirTemp("", "verif-c02-levels-")
 		if err != nil {
 			c.EngineError("mkdtemp: %v", err)
